@@ -202,7 +202,45 @@ function checkSubsetOperand(prog, t, fuel = 8, seen = new Set()) {
     }
   }
 }
+// Decisions that need no enumeration and hold for operands the enumeration does not support (optional or top-typed
+// properties): an object / array / tuple type is never included in a union of primitives and literals; an object type is
+// included in an object type that only requires literal-typed properties iff it requires the same literals there.
+function resolveAlias(prog, t, fuel = 8) {
+  while (t.k === "ref" && fuel-- > 0) {
+    const d = prog.get(t.name);
+    if (d.kind !== "alias" && d.kind !== "interface") return t;
+    t = norm(prog, prog.unfold(t));
+  }
+  return t;
+}
+function quickSubset(prog, A0, B0) {
+  let A, B;
+  try {
+    A = resolveAlias(prog, A0);
+    B = resolveAlias(prog, B0);
+  } catch (e) {
+    if (e instanceof Unsupported) return null;
+    throw e;
+  }
+  const primOnly = (t) => (t.k === "prim" && ["string", "number", "boolean", "null", "undefined"].includes(t.name)) || t.k === "lit" || (t.k === "union" && t.m.every((x) => primOnly(resolveAlias(prog, x))));
+  const hasNever = (t) => mentions(prog, t, (x) => x.k === "prim" && x.name === "never");
+  if (["object", "array", "tuple"].includes(A.k) && primOnly(B) && !hasNever(A)) return false;
+  if (A.k === "object" && B.k === "object" && !(B.index || []).length && B.props.length > 0 && B.props.every((p) => !p.opt && resolveAlias(prog, p.t).k === "lit") && !hasNever(A)) {
+    for (const bp of B.props) {
+      const ap = A.props.find((x) => x.name === bp.name);
+      if (!ap) return (A.index || []).length ? null : false;
+      if (ap.opt) return false;
+      const at = resolveAlias(prog, ap.t);
+      if (at.k !== "lit") return null;
+      if (at.v !== resolveAlias(prog, bp.t).v) return false;
+    }
+    return true;
+  }
+  return null;
+}
 export function isSubset(prog, A, B) {
+  const quick = quickSubset(prog, A, B);
+  if (quick !== null) return quick;
   checkSubsetOperand(prog, A);
   checkSubsetOperand(prog, B);
   const isTpl = (t) => t.k === "tpl";
